@@ -89,7 +89,7 @@ def header_case(ctx, rng):
                   stream_name=rng.choice(STREAM_NAMES))
     integ = rng.choice(["generic", "rdflib"])
     cfg = {"integration": integ, "physical": phys, "entry": "stream_frames_gen", "frame_size": 250, "preset": preset,
-           "delimited": delimited, "logical": logical, **params}
+           "delimited": delimited, "logical": logical, "params_build": rng.choice(["direct", "direct", "version1", "replace"]), **params}
     arity = 3 if phys == 1 else 4
     st = tuple([("iri", "http://e/s"), ("iri", "http://e/p"), ("bnode", "b")] + ([("default",)] if arity == 4 else []))
     if preset[1] == 0:
